@@ -24,8 +24,8 @@ Rec == ndJsonDeserialize(IOEnv.TRACE)
 VARIABLES l, obsAppended, obsMeta, prevFlat
 tvars == <<vars, l, obsAppended, obsMeta, prevFlat>>
 
-TrIds == {"a", "b", "c"}
-TrSize == [v \in TrIds |-> CASE v = "a" -> 4 [] v = "b" -> 5 [] v = "c" -> 9]
+TrIds == {"a", "b", "c", "z"}      \* "z": a value that is zero bytes wide (schema "null")
+TrSize == [v \in TrIds |-> CASE v = "a" -> 4 [] v = "b" -> 5 [] v = "c" -> 9 [] v = "z" -> 0]
 
 If(c, name) == IF c THEN {} ELSE {name}
 Flat(blocks) == FlattenSeq(blocks)
